@@ -1,5 +1,8 @@
 import Pycoin.Proofs.BIP32Basic
 import Pycoin.Proofs.BIP32Cache
+import Pycoin.Proofs.BIP32Commute
+import Pycoin.Proofs.ElectrumCommute
+import Pycoin.Proofs.BIP32Secp
 /-!
 C09 — Hierarchical key derivation follows BIP32 and commutes with going public.  Property theorems
 (helper lemmas: `Proofs/BIP32*.lean`).
@@ -51,6 +54,147 @@ theorem C09_public_children_not_hardened (g : Gen) (fuel : Nat) (n child : Node)
   cases asPrivate with
   | false => exact h6 rfl
   | true => have := h7 rfl; simp [hpub] at this; exact this
+
+/-! ## CKDpriv / CKDpub are the BIP's, and commute with going public
+
+`g : Gen` is a generator object with `[Good g.c]` (p prime, non-zero discriminant) and `S : Setting g` (built by the
+constructor; `G` on the curve with reduced coordinates; `0 < n ≤ 2²⁵⁶`, `n • G = ∞`; `p ≤ 2²⁵⁶`).  The shipped
+secp256k1 generator satisfies all of it for every blinding factor (`C09_setting_secp256k1`).  `mathCrypto g.c` reads
+the BIP's `point`, `+`, `serP` over Mathlib's group `(W g.c).Point`; HMAC-SHA512 and HASH160 are function symbols. -/
+
+section ckd
+open Pycoin.Curve WeierstrassCurve
+variable {g : Gen} [Good g.c]
+
+/-- **ckd_matches_bip32 (CKDpriv).** For a constructed private key `(s, pp)` (`pp = s * generator`), any chain code
+and every child number `j < 2³²` — hardened exactly when `j ≥ 2³¹`; data `0x00 ‖ ser256(s) ‖ ser32(j)` resp.
+`serP(s•G) ‖ ser32(j)` with `ser32` big-endian — `subkey_secret_exponent_chain_code_pair` returns the BIP's
+`(k_j, c_j) = ((I_L + s) mod n, I_R)` on its first iteration whenever the BIP declares the key valid
+(`I_L < n`, `k_j ≠ 0`). -/
+theorem C09_ckd_matches_bip32 (S : Setting g) {s j : Nat} {pp : Int × Int} (hs : s < g.c.n)
+    (hpub : g.mul (s : Int) = .ok (some pp)) (cc : Bytes) (hj : j < 2 ^ 32) (fuel : Nat) (x : Spec.BIP32.XPrv)
+    (hspec : Spec.BIP32.CKDpriv (mathCrypto g.c) ⟨s, cc⟩ j = .ok x) :
+    subkeySecretExponentChainCodePair g (fuel + 1) s cc j (decide ((2 : Int) ^ 31 ≤ j)) pp = .ok ((x.k : Int), x.c) := by
+  rw [ckdPriv_matches S hs hpub cc hj fuel, hspec]
+
+/-- **the complementary branch** (`I_L ≥ n` or child `0`): the BIP declares the key invalid ("proceed with the next
+value for i"); the code instead *retries* with data `0x01 ‖ I_R ‖ ser32(j)` — the rest of the loop, with the fuel
+that is left.  On the public side nothing is retried: `subkey_public_pair_chain_code_pair` reduces `I_L` modulo `n`
+(`C09_ckd_public_general`), so for such an `I_L` the two sides need not agree.  Reaching this branch takes an
+HMAC-SHA512 output with `I_L ≥ n` (probability ≈ 2⁻¹²⁷): no input can be exhibited; it is a hypothesis of
+`C09_ckd_commute`, not a finding. -/
+theorem C09_ckd_retry_branch (S : Setting g) {s j : Nat} {pp : Int × Int} (hs : s < g.c.n)
+    (hpub : g.mul (s : Int) = .ok (some pp)) (cc : Bytes) (hj : j < 2 ^ 32) (fuel : Nat)
+    (hspec : Spec.BIP32.CKDpriv (mathCrypto g.c) ⟨s, cc⟩ j = .invalid) :
+    subkeySecretExponentChainCodePair g (fuel + 1) s cc j (decide ((2 : Int) ^ 31 ≤ j)) pp =
+      let data := if Spec.BIP32.isHardened j then (0 : UInt8) :: (Spec.BIP32.ser256 s ++ Spec.BIP32.ser32 j)
+        else (mathCrypto g.c).serP ((mathCrypto g.c).point s) ++ Spec.BIP32.ser32 j
+      ckdLoop g.c.n s cc (Spec.BIP32.ser32 j) fuel (1 :: ((Hash.hmacSha512 cc data).drop 32 ++ Spec.BIP32.ser32 j)) := by
+  rw [ckdPriv_matches S hs hpub cc hj fuel, hspec]
+
+open Classical in
+/-- **ckd_matches_bip32 (CKDpub).** For a reduced on-curve public pair, any chain code and every non-hardened child
+number `j < 2³¹`: when the BIP's CKDpub yields `(K_j, c_j)` (`I_L < n`, `K_j ≠ ∞`), `subkey_public_pair_chain_code_pair`
+returns the reduced coordinates of `K_j = I_L • G + K` and `c_j = I_R`. -/
+theorem C09_ckd_public_matches_bip32 (S : Setting g) {pp : Int × Int} (hon : containsXY g.c pp.1 pp.2 = true)
+    (hred : Reduced g.c (some pp)) (cc : Bytes) {j : Nat} (hj : j < 2 ^ 31) {x : Spec.BIP32.XPub (W g.c).Point}
+    (hspec : Spec.BIP32.CKDpub (mathCrypto g.c) ⟨toPoint g.c (some pp), cc⟩ j = .ok x) :
+    ∃ q : Int × Int, subkeyPublicPairChainCodePair g pp cc j = .ok (q, x.c) ∧ containsXY g.c q.1 q.2 = true ∧
+      Reduced g.c (some q) ∧ toPoint g.c (some q) = x.K :=
+  ckdPub_matches S hon hred cc hj hspec
+
+/-- `subkey_public_pair_chain_code_pair` for *every* `I_L`: it reduces `I_L` modulo `n`, never raises anything but
+`DerivationError`, and raises that exactly when `(I_L mod n) • G + K` is the point at infinity. -/
+theorem C09_ckd_public_general (S : Setting g) {pp : Int × Int} (hon : containsXY g.c pp.1 pp.2 = true)
+    (hred : Reduced g.c (some pp)) (cc : Bytes) {j : Nat} (hj : j < 2 ^ 31) :
+    let I := Hash.hmacSha512 cc ((mathCrypto g.c).serP (toPoint g.c (some pp)) ++ Spec.BIP32.ser32 j)
+    ∃ R : Pt, OnCurve g.c R ∧ Reduced g.c R ∧
+      toPoint g.c R = ((Spec.BIP32.parse256 (I.take 32) % g.c.n : Nat) : Int) • toPoint g.c (basis g.c) + toPoint g.c (some pp) ∧
+      subkeyPublicPairChainCodePair g pp cc j =
+        (match R with
+         | none => .error .derivation
+         | some q => .ok (q, I.drop 32)) :=
+  ckdPub_general S hon hred cc hj
+
+/-- **ckd_commute.** A constructed private node `n` with exponent `se`, a non-hardened index `i`, the BIP's CKDpriv
+valid for it (`I_L < n`, child `≠ 0`), `child = n._subkey(i, False, True)`: then the public copy of `n` derives, for
+either value of `as_private`, exactly `child` without its exponent — same public pair, same chain code, same depth,
+fingerprint and child number.  Group algebra: `((I_L + se) mod n) • G = I_L • G + se • G` because `n • G = ∞`. -/
+theorem C09_ckd_commute (S : Setting g) (n child : Node) (i : Int) (fuel fuel' : Nat) (asPrivate : Bool)
+    (hv : n.Valid g) (se : Int) (hse : n.secretExponent = some se)
+    (hfirst : ∃ x, Spec.BIP32.CKDpriv (mathCrypto g.c) ⟨se.toNat, n.chainCode⟩ i.toNat = .ok x)
+    (hchild : subkeyRaw g (fuel + 1) n i false true = .ok child) :
+    n.publicCopy g = .ok { n with secretExponent := none } ∧
+    child.publicCopy g = .ok { child with secretExponent := none } ∧
+    subkeyRaw g fuel' { n with secretExponent := none } i false asPrivate = .ok { child with secretExponent := none } := by
+  refine ⟨publicCopy_of_valid hv, ?_, ckd_commute_node S n child i fuel fuel' asPrivate hv se hse hfirst hchild⟩
+  have := ckd_commute_node S n child i fuel 0 false hv se hse hfirst hchild
+  -- the child was returned by the constructor
+  unfold subkeyRaw at hchild
+  split at hchild
+  · cases hchild
+  · split at hchild
+    · cases hchild
+    · split at hchild
+      · cases hchild
+      · split at hchild
+        · cases hchild
+        · rename_i key hk
+          simp only [if_true, Except.ok.injEq] at hchild
+          subst hchild
+          unfold subkeyChild at hk
+          rw [hse] at hk
+          simp only at hk
+          split at hk
+          · cases hk
+          · exact publicCopy_of_valid (mkNode_valid hk)
+
+/-- the shipped generator: the side conditions hold for every blinding factor the constructor may draw -/
+theorem C09_setting_secp256k1 (bf : Int) :
+    ∃ tbl m, Gen.new Pycoin.Gen.Curves.secp256k1 bf = .ok ⟨Pycoin.Gen.Curves.secp256k1, bf, tbl, m⟩ ∧
+      Setting (⟨Pycoin.Gen.Curves.secp256k1, bf, tbl, m⟩ : Gen) := by
+  obtain ⟨tbl, m, h⟩ := gen_new_secp256k1 bf
+  exact ⟨tbl, m, h, setting_secp256k1 bf tbl m h⟩
+
+/-- … and it is the generator of every network (`network.generator` has the parameters of the generated `secp256k1`) -/
+theorem C09_networks_use_secp256k1 :
+    Pycoin.Gen.Networks.generatorShared = true ∧
+    Pycoin.Gen.Networks.genP = Pycoin.Gen.Curves.secp256k1.p ∧ (Pycoin.Gen.Networks.genA : Int) = Pycoin.Gen.Curves.secp256k1.a ∧
+    (Pycoin.Gen.Networks.genB : Int) = Pycoin.Gen.Curves.secp256k1.b ∧ Pycoin.Gen.Networks.genOrder = Pycoin.Gen.Curves.secp256k1.n ∧
+    (Pycoin.Gen.Networks.genGx : Int) = Pycoin.Gen.Curves.secp256k1.gx ∧ (Pycoin.Gen.Networks.genGy : Int) = Pycoin.Gen.Curves.secp256k1.gy :=
+  networks_use_secp256k1
+
+/-- `Generator.__mul__` of a constructed generator object is the blinded multiplication of the C02 model -/
+theorem C09_generator_object (g : Gen) (h : g.WF) (e : Int) : g.mul e = Curve.mulG g.c g.bf e := Gen.mul_eq h e
+
+end ckd
+
+/-! ## Electrum -/
+
+section electrum
+open Pycoin.Curve Pycoin.Electrum
+variable {g : Gen} [Good g.c]
+
+/-- **electrum_commute.** For a constructed private Electrum wallet `w` (exponent `k`, public pair `k * generator`)
+and every path text: if `w.subkey(path)` returns `w'`, then the public copy of `w` derives the public copy of `w'`
+(`offset • G + k • G = ((k + offset) mod n) • G`); the master public key — hence the offset — is the same on both sides. -/
+theorem C09_electrum_commute (S : Setting g) (w w' : Wallet) (k : Int) (hk : w.secretExponent = some k)
+    (hvalid : keyInit g (.priv k) = .ok (some k, w.publicPair)) (path : List Char)
+    (h : w.subkey g path = .ok w') :
+    w.publicCopy g = .ok { w with secretExponent := none } ∧
+    ({ w with secretExponent := none } : Wallet).masterPublicKey = w.masterPublicKey ∧
+    ({ w with secretExponent := none } : Wallet).subkey g path = .ok { w' with secretExponent := none } := by
+  refine ⟨?_, rfl, electrum_commute S w w' k hk hvalid path h⟩
+  obtain ⟨-, -, -, -, hon⟩ := keyInit_priv_ok hvalid
+  have hmp : ∀ q : Pt, mkWallet g (.publicPair q) =
+      (match keyInit g (.pub q) with
+       | .error e => .error e
+       | .ok (se, pp) => .ok ⟨se, pp⟩) := fun _ => rfl
+  unfold Wallet.publicCopy
+  rw [hk]
+  simp only [hmp, keyInit, hon, if_true]
+
+end electrum
 
 /-! ## the sub-key cache is transparent -/
 
